@@ -77,24 +77,30 @@ Qed.
 Definition nseq (a : N) (k : nat) : list N := map (fun i => a + N.of_nat i) (seq 0 k).
 Lemma nseq_S a k : nseq a (S k) = nseq a k ++ [a + N.of_nat k].
 Proof. unfold nseq. rewrite seq_S, map_app. reflexivity. Qed.
+Lemma map_seq_from {A} (f : nat -> A) : forall k s, map f (seq s k) = map (fun i => f (s + i)%nat) (seq 0 k).
+Proof.
+  induction k as [|k IH]; intros s; [reflexivity|]. cbn [seq map]. rewrite Nat.add_0_r. f_equal.
+  rewrite IH, <- seq_shift, map_map. apply map_ext. intros i. f_equal. lia.
+Qed.
 Lemma nseq_app a k1 k2 : nseq a (k1 + k2) = nseq a k1 ++ nseq (a + N.of_nat k1) k2.
 Proof.
-  unfold nseq. rewrite seq_app, map_app. f_equal. cbn [Nat.add]. rewrite <- (seq_shift k2 0), map_map.
-  rewrite <- seq_shift, map_map. apply map_ext. intros i. lia.
+  unfold nseq. rewrite seq_app, map_app. f_equal. cbn [Nat.add]. rewrite map_seq_from. apply map_ext. intros i. lia.
 Qed.
 Lemma nseq_shift a d k : nseq (a + d) k = map (fun q => q + d) (nseq a k).
 Proof. unfold nseq. rewrite map_map. apply map_ext. intros i. lia. Qed.
 Lemma nseq_bound a k q : In q (nseq a k) -> a <= q < a + N.of_nat k.
 Proof. unfold nseq. intros H. apply in_map_iff in H. destruct H as (i & <- & Hi). apply in_seq in Hi. lia. Qed.
 
-Definition exH (c : cseg) : list cseg := let '(h, o, n) := c in map (fun q => (h, q, 1)) (nseq o (N.to_nat n)).
+Definition unit_at (h : string) (q : N) : cseg := (h, q, 1).
+Definition exH (c : cseg) : list cseg := let '(h, o, n) := c in map (unit_at h) (nseq o (N.to_nat n)).
 Definition explode (l : list seg) : list cseg := flat_map exH (map hs l).
 
-Lemma canonH_run h o : forall k, canonH (map (fun q => (h, q, 1)) (nseq o k)) = match k with O => [] | _ => [(h, o, N.of_nat k)] end.
+Lemma canonH_run h o : forall k, canonH (map (unit_at h) (nseq o k)) = match k with O => [] | _ => [(h, o, N.of_nat k)] end.
 Proof.
   induction k as [|k IH]; [reflexivity|].
-  rewrite nseq_S, map_app. cbn [map]. unfold canonH in *. rewrite fold_left_app. cbn [fold_left].
+  rewrite nseq_S, map_app. unfold canonH in *. rewrite fold_left_app.
   apply (f_equal (@rev cseg)) in IH. rewrite rev_involutive in IH. rewrite IH.
+  cbn [map fold_left]. unfold unit_at at 1.
   destruct k as [|k].
   - cbn. rewrite N.add_0_r. reflexivity.
   - cbn [rev app cstep]. change (1 =? 0) with false. cbn iota. cbn [canon_add]. rewrite String.eqb_refl, N.eqb_refl. cbn [andb rev app].
@@ -150,8 +156,8 @@ Qed.
 
 Fixpoint addr_of (blocks : list string) (p : N) : cseg :=
   match blocks with
-  | [] => (""%string, p, 1)
-  | b :: r => if p <? loc_size b then (loc_hash b, p, 1) else addr_of r (p - loc_size b)
+  | [] => unit_at ""%string p
+  | b :: r => if p <? loc_size b then unit_at (loc_hash b) p else addr_of r (p - loc_size b)
   end.
 
 Lemma exH_block b r pos n : pos + n <= loc_size b ->
@@ -167,6 +173,8 @@ Proof.
   apply map_ext. intros q. cbn [addr_of]. destruct (N.ltb_spec (q + loc_size b) (loc_size b)); [lia|]. f_equal. lia.
 Qed.
 
+Lemma name_segs_cons B i o n l : name_segs B ((i, o, n) :: l) = (nth i B ""%string, o, n) :: name_segs B l.
+Proof. reflexivity. Qed.
 Lemma ref_pointwise_from : forall B pre pos len, pos + len <= total (sizes_of B) ->
   explode (name_segs (pre ++ B) (ref_from (length pre) 0 (sizes_of B) pos len)) = map (addr_of B) (nseq pos (N.to_nat len)).
 Proof.
@@ -180,18 +188,18 @@ Proof.
       * (* entirely inside this block *)
         rewrite (ref_from_nil_after (sizes_of r)) by lia. rewrite app_nil_r.
         destruct (N.max pos 0 <? N.min (pos + len) (loc_size b)) eqn:E.
-        -- unfold name_segs. cbn [map]. rewrite nth_middle. rewrite explode_cons. unfold explode. cbn [map flat_map]. rewrite app_nil_r.
+        -- rewrite name_segs_cons, nth_middle, explode_cons. unfold explode. cbn [name_segs map flat_map]. rewrite app_nil_r.
            replace (N.max pos 0 - 0) with pos by lia. replace (N.min (pos + len) (loc_size b) - N.max pos 0) with len by lia.
            apply exH_block. lia.
         -- assert (len = 0) by lia. subst len. reflexivity.
       * (* spills into the following blocks *)
         replace (N.max pos 0 <? N.min (pos + len) (loc_size b)) with true by (symmetry; apply N.ltb_lt; lia).
-        cbn [app]. unfold name_segs. cbn [map]. fold (name_segs (pre ++ b :: r)). rewrite nth_middle, explode_cons.
+        cbn [app]. rewrite name_segs_cons, nth_middle, explode_cons.
         replace (N.max pos 0 - 0) with pos by lia. replace (N.min (pos + len) (loc_size b) - N.max pos 0) with (loc_size b - pos) by lia.
         rewrite (ref_from_clip (sizes_of r) _ _ pos len (loc_size b) (pos + len - loc_size b)) by lia.
-        rewrite <- (ref_from_translate (sizes_of r) _ 0 0 _ (loc_size b)) at 1. rewrite !N.add_0_l.
-        rewrite (ref_from_translate (sizes_of r) _ 0 0 _ (loc_size b)).
-        rewrite Hpre, Hlen, IH by lia.
+        assert (Ht : forall i L, ref_from i (loc_size b) (sizes_of r) (loc_size b) L = ref_from i 0 (sizes_of r) 0 L).
+        { intros i L. rewrite <- (ref_from_translate (sizes_of r) i 0 0 L (loc_size b)). rewrite !N.add_0_l. reflexivity. }
+        rewrite Ht, Hpre, Hlen. rewrite IH by lia.
         replace (N.to_nat len) with (N.to_nat (loc_size b - pos) + N.to_nat (pos + len - loc_size b))%nat by lia.
         rewrite nseq_app, map_app. f_equal.
         -- apply exH_block. lia.
@@ -199,9 +207,11 @@ Proof.
            rewrite addr_of_skip by lia. rewrite N.sub_diag. reflexivity.
     + (* starts after this block *)
       replace (N.max pos 0 <? N.min (pos + len) (loc_size b)) with false by (symmetry; apply N.ltb_ge; lia).
-      cbn [app]. replace pos with (pos - loc_size b + loc_size b) at 1 by lia.
-      rewrite <- (N.add_0_l (loc_size b)) at 1. rewrite ref_from_translate.
-      rewrite Hpre, Hlen, IH by lia. symmetry. apply addr_of_skip. exact Hge.
+      cbn [app].
+      assert (Ht : forall i, ref_from i (loc_size b) (sizes_of r) pos len = ref_from i 0 (sizes_of r) (pos - loc_size b) len).
+      { intros i. rewrite <- (ref_from_translate (sizes_of r) i 0 (pos - loc_size b) len (loc_size b)). rewrite N.add_0_l.
+        replace (pos - loc_size b + loc_size b) with pos by lia. reflexivity. }
+      rewrite Ht, Hpre, Hlen, IH by lia. symmetry. apply addr_of_skip. exact Hge.
 Qed.
 Theorem ref_pointwise B pos len : pos + len <= total (sizes_of B) ->
   explode (name_segs B (ref (sizes_of B) pos len)) = map (addr_of B) (nseq pos (N.to_nat len)).
